@@ -57,7 +57,7 @@ fn hdr_flat_body<const FULL: bool>(covers: fn(&RefHeader, usize, usize, &[u8; WI
                 let k = kind_of(e);
                 assert!(!matches!(k, ErrKind::InvalidTagId { .. } | ErrKind::InvalidTagData { .. } | ErrKind::Hierarchy { .. } | ErrKind::Oversized { .. } | ErrKind::InvalidTagSize { .. }),
                     "C12/C04a: a merely truncated header is never reported as corruption");
-                assert!(matches!(k, ErrKind::Eof { tag_start, tag_id, tag_size: None, has_partial: false } if tag_start == pos && tag_id == id),
+                assert!(matches!(k, ErrKind::Eof { tag_start, tag_id, tag_size: None, partial_len: None | Some(0) } if tag_start == pos && tag_id == id),
                     "C12/C04a: EOF error: start == offset of the incomplete tag, id present iff id bytes complete, no size");
             }
             Ok(_) => assert!(false, "C12/C04a: incomplete header must not be accepted (stale bytes beyond the fill level were parsed)"),
@@ -95,7 +95,6 @@ fn hdr_flat_body<const FULL: bool>(covers: fn(&RefHeader, usize, usize, &[u8; WI
                     assert!(*rhl >= 2 && *rhl <= avail, "C05a: accepted header is >= 2 bytes and lies within the available bytes");
                     assert!(!f_id, "C13: unknown id accepted although unknown ids are not tolerated");
                     assert!(!f_limit, "C13/C17a: declared size above the limit accepted (the limit stays in force under every tolerance setting)");
-                    assert!(!numeric_bad, "C05a: numeric element with size > 8 / unknown accepted");
                 }
                 Err(e) => {
                     let k = kind_of(e);
